@@ -220,6 +220,21 @@ Definition labels_C09_example : list label :=
   Eval vm_compute in schedule fixed [] (init 1 2)
     [Enq 5 false 0; Enq 5 false 1; Enq 9 false 2; Enq 8 false 3; Enq 1 false 4; Enq 7 false 5; Enq 0 false 6].
 
+(* a run with two subscribers registered before the work, one registered after the error was handed to the monitor *)
+Definition labels_C14_example : list label :=
+  Eval vm_compute in schedule fixed [] (init 1 2)
+    [ErrSub; ErrSub; Enq 1 false 0; Enq 1 false 1; Finish 0 (Some 7%nat); ErrSub; ErrRecv 0; ErrRecv 1; Finish 1 None].
+
+(* K5: Stop with one item executing: the dispatcher exits and closes workerSemaphore; the work function then returns
+   and its worker's token send panics *)
+Definition labels_K5_inflight : list label :=
+  Eval vm_compute in schedule fixed [] (init 1 1) [Enq 1 false 0; Stop; Finish 0 None].
+(* an idle Stop followed by further Enqueue calls (Props/C19.v non-vacuity example) *)
+Definition labels_C19_example : list label :=
+  Eval vm_compute in schedule fixed [] (init 2 2)
+    [Enq 1 false 0; Enq 2 false 1; Enq 3 false 2; Finish 0 None; Finish 1 None; Finish 2 None; Stop;
+     Enq 1 false 3; Enq 1 false 4].
+
 (* ---- outside the six properties' scope, recorded because the harness met it: Dequeue while the dispatcher is NOT
    idle (it waits for a token in the full-queue branch) can empty the heap, and the dispatcher then pops an empty
    heap: a crash of the FIXED code too.  C16 restricts the calls to an idle dispatcher; this shows why. ---- *)
